@@ -30,6 +30,13 @@ theorem recycled_objects_start_clean :
     C07.coversAll "NewSchemaCtx" "SchemaCtx" = true ∧ C07.coversAll "NewValidateSchemaCtx" "SchemaCtx" = true ∧
     (C07.assignedBy "NewPathBuilder").contains "reslice[:1]" = true := C07.constructors_complete
 
+/-- the context that all children of a struct / slice node share carries only state the per-child loops
+    manage (Data, ValPtr, DType, Exit, CanCatch re-initialised per child — `Gen.facts` —, Test set per test, the
+    Path stack): no other field of SchemaCtx is assigned outside the two constructors, so nothing one child
+    does (a caught failure, a Preprocess error) can reach the siblings visited after it through the context
+    (regenerated go/ast fact) -/
+theorem ctx_carries_only_managed_state : Gen.ctxStrayWrites = [] := by decide
+
 /-- executions write no schema object and no package-level variable (assignments, inc/dec, in-place mutator
     calls in process / validate / Parse / Validate and everything of the schema files reachable from them) -/
 theorem executions_write_no_schema : Gen.schemaWrites = [] := by decide
